@@ -221,13 +221,14 @@ class LDAWrapper(LinearSolver):
                 # Remove all previous components that are already in the database (orthogonalize)
                 xadd = xnew[isel, i]
                 badd = (A @ xnew[..., i])[isel, ...]
+                bnrm0 = np.linalg.norm(badd)
                 for x, b in zip(x_data, b_data):
                     beta = badd @ b.conj() / (b.conj() @ b)
                     badd -= beta * b
                     xadd -= beta * x
                 bnrm = np.linalg.norm(badd)
-                if not np.isfinite(bnrm) or bnrm == 0:
-                    continue
+                if not np.isfinite(bnrm) or bnrm <= self.tol * bnrm0:
+                    continue  # Nothing new (up to the tolerance) is added by this vector
                 badd /= bnrm
                 xadd /= bnrm
                 x_data.append(xadd)
